@@ -895,6 +895,10 @@ func runC01(c *caseWriter) (string, bool, map[string]int) {
 		"<textarea>caf\xe9</textarea><b>{{.A}}</b><textarea>y</textarea>", "<title>\u212a\u212a\u212a</title><b title=\"{{.A}}\">k</b><title>t</title>", "<script>var s = \"\u023a\u023a\u023a\";</script><p>{{.A}}</p><script>var t;</script>",
 		"<style>/* \u0130\u0130 */</style><i>{{.B}}</i><style>a{}</style>", "<textarea>\xff\xfe\xc0</textarea><a href=\"/p?q={{.A}}\">k</a><textarea>{{.B}}</textarea>", "<title>\u1e9e\u2126</TITLE><b>{{.A}}</b>",
 		"<TEXTAREA>\u212a</TextArea ><i title='{{.A}}'>k</i>", "<script>/*\xe9\xe9\xe9\xe9*/</SCRIPT><b>{{.A}}</b><script>x</script>", "<style>\u023a{}</style ><b>{{.A}}</b>",
+		// a conditional that may or may not START an unquoted attribute value (D50): when it writes nothing the
+		// tokenizer is still before the value and takes the following attribute for it
+		"<a x={{if .F}}y{{end}} title=\"{{.A}}\">k</a>", "<a x={{with .N}}y{{end}} title='{{.A}}'>k</a>", "<a x={{range .E}}y{{end}} title=\"{{.A}}\" lang=\"en\">k</a>", "<a x= {{if .F}}y{{end}} title=\"{{.B}}\">k</a>",
+		"<a x={{if .T}}y{{end}} title=\"{{.A}}\">k</a>", "<input value={{if .F}}1{{end}} name=\"{{.A}}\">",
 		// attribute names split over text nodes (D48), names chosen by conditionals followed by further
 		// conditionals (D46, repaired), conditional static prefixes (D47, repaired)
 		"<a title{{/* c */}}/=\"{{.A}}\">k</a>", "<a data-x{{/* c */}}/onclick=\"{{.A}}\">k</a>", "<a title{{if .F}}{{end}}/='{{.A}}'>k</a>", "<iframe src{{/* c */}}doc=\"{{.A}}\"></iframe>",
